@@ -88,7 +88,8 @@ theorem outbound_refusals (st : State) (auths : List Addr) (caller : Addr) (tid 
 /-! ### inbound -/
 
 /-- A successful inbound transfer credits exactly the announced amount to the decoded recipient: minted for service-deployed
-    tokens, released from the service's custody for canonical ones. -/
+    tokens, released from the service's custody for canonical ones; it announces exactly that, and when the message carries data
+    the recipient application is handed exactly (origin chain, message id, source address, data, token id, token address, amount). -/
 theorem inbound_exact (st st' : State) (c i sa payload origin : Bytes) (t : Abi.Transfer) (evs : List Event)
     (h : execute H S k st c i sa payload = .ok (st', evs))
     (hd : Abi.decodeHub payload = .ok (.receiveFromHub origin (.transfer t))) :
@@ -98,7 +99,10 @@ theorem inbound_exact (st st' : State) (c i sa payload origin : Bytes) (t : Abi.
       (match mgr with
        | .native => tokMintByService st0 addr recipient t.amount = .ok st'
        | .lockUnlock => tokTransfer st0 addr st0.self recipient t.amount true = .ok st') ∧
-      (∃ gwEvs, evs = gwEvs ++ [evTransferReceived st origin t.tokenId t.source recipient t.amount t.data]) := by
+      (∃ gwEvs, evs = gwEvs ++ (evTransferReceived st origin t.tokenId t.source recipient t.amount t.data ::
+          (match t.data with
+           | none => []
+           | some d => [evAppExecuted recipient origin i t.source d t.tokenId addr t.amount]))) := by
   exact Proofs.C05.inbound_exact H S k st st' c i sa payload origin t evs h hd
 
 /-! ### conservation over histories -/
